@@ -63,5 +63,6 @@ fn main() {
             Err(e) => json!({"panic": util::panic_msg(e)}),
         };
         writeln!(out, "{}", json!({"id": v["id"], "out": o})).unwrap();
+        out.flush().unwrap();      // one answer per line, flushed: a case that kills the process must be the first unanswered one
     }
 }
